@@ -7,11 +7,11 @@ root=${VERIF_SOAK_ROOT:-$PWD}
 secs=$1; shift
 bins=$root/soakbin
 rm -rf "$bins"; mkdir -p "$bins"
-for v in small asan tshim plain; do mkdir -p "$bins/$v"; cp -a /verif/build/$v/bin "$bins/$v/bin"; done
+for v in small asan tshim plain vg; do mkdir -p "$bins/$v"; cp -a /verif/build/$v/bin "$bins/$v/bin"; done
 for s in "$@"; do
   for spec in C03:small/bin/eion: C10:small/bin/erhd: C04:small/bin/erhd: C01:small/bin/eion: C01:small/bin/erhd: \
               C07:small/bin/erhd: C09:small/bin/erhd: C13:small/bin/eion: C13:plain/bin/erng: C08:tshim/bin/econt: \
-              C19:plain/bin/etl: C14:small/bin/erhd: C14:plain/bin/efs: C12:asan/bin/eion: C12:asan/bin/erhd: C12:small/bin/eion:perturb; do
+              C19:plain/bin/etl: C14:small/bin/erhd: C14:plain/bin/efs: C12:asan/bin/eion: C12:asan/bin/erhd: C12:small/bin/eion:perturb C12:vg/bin/eion:valgrind C12:vg/bin/erhd:valgrind; do
     IFS=: read -r p bin vmode <<<"$spec"
     out=$(VERIF_ROOT=$root VERIF_SEED=$s VERIF_PROPERTY=$p VERIF_MODE=$vmode VERIF_SECONDS=$secs VERIF_RUNS=100000000 VERIF_EVIDENCE_PART=soak "$bins/$bin" quick 2>&1)
     echo "seed $s $p $bin $vmode: $(echo "$out" | grep "^check $p:" | tail -1)"
